@@ -196,8 +196,17 @@ func (e *EnvReader) Read(p []byte) (int, error) {
 
 var errSink = errors.New("verif: injected sink error")
 
+// timeoutErr is a sink error that reports Timeout() == true (a caller might be tempted to retry).
+type timeoutErr struct{}
+
+func (timeoutErr) Error() string   { return "verif: injected sink timeout" }
+func (timeoutErr) Timeout() bool   { return true }
+func (timeoutErr) Temporary() bool { return true }
+func (timeoutErr) Unwrap() error   { return errSink }
+
 type EnvWriter struct {
 	FailAt int // fail the k-th Write (1-based); 0 = never
+	Mode   int // how it fails: 0 (0, err); 1 (len(p), err) — everything was taken AND an error is reported; 2 (len(p)/2, timeout error)
 	Calls  int
 	Got    []byte   // concatenation of everything accepted
 	Chunks [][2]int // (offset into Got, len) per accepted call
@@ -210,6 +219,14 @@ func (w *EnvWriter) Write(p []byte) (int, error) {
 	}
 	w.Calls++
 	if w.FailAt > 0 && w.Calls >= w.FailAt {
+		switch w.Mode {
+		case 1:
+			w.Got = append(w.Got, p...)
+			return len(p), errSink
+		case 2:
+			w.Got = append(w.Got, p[:len(p)/2]...)
+			return len(p) / 2, timeoutErr{}
+		}
 		return 0, errSink
 	}
 	w.Chunks = append(w.Chunks, [2]int{len(w.Got), len(p)})
